@@ -17,7 +17,8 @@ from dataclasses import dataclass, field
 from enum import Enum
 from typing import Annotated, Any, Collection, List, Literal, NewType, NoReturn, Optional, Sequence, Union
 from apischema import Undefined, UndefinedType, ValidationError, alias, deserializer, schema, serializer, type_name, validator
-from apischema.metadata import flatten, validators
+import graphql
+from apischema.metadata import flatten, none_as_undefined, validators
 from apischema.graphql import Mutation, Query, graphql_schema, interface, resolver
 from apischema.utils import to_camel_case
 LOG = []
@@ -453,6 +454,8 @@ class Gen:
         self.P["classes"].append(cl)  # registered first: self references allowed
         for _ in range(r.randint(1, 4)):
             cl["fields"].append({"name": self.fname(), "t": self.out_type(selfname=name), "alias": self.maybe_alias(), "default": None, "flatten": False})
+            if cl["fields"][-1]["t"][0] == "opt" and r.random() < 0.3:
+                cl["fields"][-1]["nau"] = True
         # flatten: a class defined earlier, not an ancestor, not flattening itself, at most once
         mine = self.contributors(name)
         cands = [c for c in self.P["classes"] if c["role"] == "out" and c["name"] != name and not self.reaches(c["name"], name)
@@ -463,6 +466,8 @@ class Gen:
             rn = self.fname()
             cl["resolvers"].append({"name": rn, "alias": self.maybe_alias(0.25), "params": self.params(), "ret": self.out_type(selfname=name),
                                     "error_handler": self.handler_kind()})
+            if r.random() < 0.15:
+                cl["resolvers"][-1]["info_at"] = r.randint(0, len(cl["resolvers"][-1]["params"]))
         return cl
 
     def contributors(self, cname):
@@ -509,6 +514,8 @@ class Gen:
         name = self.fname()
         op = {"root": root, "name": name, "alias": self.maybe_alias(0.25), "params": self.params(nparams),
               "ret": ret or self.out_type(), "error_handler": self.handler_kind()}
+        if self.rng.random() < 0.15:
+            op["info_at"] = self.rng.randint(0, len(op["params"]))
         self.P["ops"].append(op)
         return op
 
@@ -569,13 +576,19 @@ class Model:
             return f"Annotated[{a}, alias({p['alias']!r})]"
         return a
 
-    def params_src(self, params):
+    def params_src(self, params, info_at=None):
         out = []
         for p in params:
             s = f"{p['name']}: {self.param_ann(p)}"
             if p["default"] is not None:
                 s += f" = {p['default']['src']}"
             out.append(s)
+        if info_at is not None:
+            # a GraphQLResolveInfo parameter is not an argument; the parameters declared after it still are (it needs a default
+            # when it follows a defaulted parameter)
+            k = min(info_at, len(out))
+            has_default_before = any(p["default"] is not None for p in params[:k])
+            out.insert(k, "info_: graphql.GraphQLResolveInfo" + (" = None" if has_default_before else ""))
         return ", ".join(out)
 
     def emit(self):
@@ -617,6 +630,8 @@ class Model:
                     meta.append(f"alias({f['alias']!r})")
                 if f["flatten"]:
                     meta.append("flatten")
+                if f.get("nau"):
+                    meta.append("none_as_undefined")  # serialize omits None there; GraphQL resolves it as null (the field stays nullable)
                 d = f["default"]
                 args = []
                 if d is not None:
@@ -643,7 +658,7 @@ class Model:
                 if rs["error_handler"] != "undef":
                     dec.append("error_handler=" + {"none": "None", "custom_none": "eh_none", "reraise": "eh_reraise"}[rs["error_handler"]])
                 L.append(f"    @resolver({', '.join(dec)})" if dec else "    @resolver")
-                ps = self.params_src(rs["params"])
+                ps = self.params_src(rs["params"], rs.get("info_at"))
                 L.append(f"    def {rs['name']}(self{', ' + ps if ps else ''}) -> {self.ann(rs['ret'])}:")
                 L.append(f"        LOG.append(({key!r}, dict({', '.join(p['name'] + '=' + p['name'] for p in rs['params'])})))")
                 L.append(f"        if {key!r} in RAISE:\n            raise RuntimeError('boom {key}')")
@@ -654,7 +669,7 @@ class Model:
             L.append(f"{u['name']} = Annotated[Union[{ms}], type_name({u['name']!r})]" if u["named"] else f"{u['name']} = Union[{ms}]")
         for op in P["ops"]:
             key = op["name"]
-            L.append(f"def {op['name']}({self.params_src(op['params'])}) -> {self.ann(op['ret'])}:")
+            L.append(f"def {op['name']}({self.params_src(op['params'], op.get('info_at'))}) -> {self.ann(op['ret'])}:")
             L.append(f"    LOG.append(({key!r}, dict({', '.join(p['name'] + '=' + p['name'] for p in op['params'])})))")
             L.append(f"    if {key!r} in RAISE:\n        raise RuntimeError('boom {key}')")
             L.append(f"    return RESULTS[{key!r}]\n")
@@ -1161,8 +1176,9 @@ class Selection:
             key = e["name"]
             if e["kind"] == "field":
                 v = getattr(holder, e["spec"]["name"])
-                if v is Undefined:
-                    data[key], tags[key] = None, flat + "undefined"
+                if v is Undefined or (v is None and e["spec"].get("nau")):
+                    # Undefined -- or None in a none_as_undefined field, which serialize turns into Undefined -- is null in GraphQL
+                    data[key], tags[key] = None, flat + ("undefined" if v is Undefined else "none_as_undefined")
                     continue
                 if key not in ser:
                     # serialize did not emit the key: report as a structural difference, not an oracle crash
